@@ -11,8 +11,8 @@ use crate::seam::*;
 use crate::types::*;
 use std::panic::{catch_unwind, AssertUnwindSafe};
 
-pub const NAMES: &[&str] = &[R1, R2, R3, R4I, R4];
-const SPAN_ROUTES: &[&str] = &[R1, R2, R3, R4I];
+pub const NAMES: &[&str] = &[R1, R2, R3, R4I, R4J, R4, R4K];
+const SPAN_ROUTES: &[&str] = &[R1, R2, R3, R4I, R4J];
 
 pub fn generate(rng: &mut Rng, _tier: &str) -> Scenario {
     let (doc, tree) = gen_doc(rng);
@@ -686,18 +686,20 @@ pub fn execute(sc: &Scenario, verbose: bool) -> RunOut {
             }
             Err(p) => out.violate("C14/6", "C14/panic/into_mut".into(), format!("into_mut / span accessors panicked: {}", panic_msg(&p))),
         }
-        let cx = Ctx::new(Fault::None, verbose);
-        let rcfg = RCfg::plain();
-        let r = catch_unwind(AssertUnwindSafe(|| run_route(R4, text, ty, &rcfg, &cx)));
-        out.absorb(&cx);
-        match r {
-            Ok(Ok(v)) => {
-                if contains_spanned(&v) {
-                    out.violate("C14/6", "C14/span-delivered-from-editable-document".into(), format!("from_document(DocumentMut) delivered a span although the document no longer has any\n value: {v:?}\n--- text ---\n{text}"));
+        for route in [R4, R4K] {
+            let cx = Ctx::new(Fault::None, verbose);
+            let rcfg = RCfg::plain();
+            let r = catch_unwind(AssertUnwindSafe(|| run_route(route, text, ty, &rcfg, &cx)));
+            out.absorb(&cx);
+            match r {
+                Ok(Ok(v)) => {
+                    if contains_spanned(&v) {
+                        out.violate("C14/6", "C14/span-delivered-from-editable-document".into(), format!("{route} delivered a span although the document no longer has any\n value: {v:?}\n--- text ---\n{text}"));
+                    }
                 }
+                Ok(Err(_)) => {}
+                Err(p) => out.violate("C14/6", format!("C14/panic/route={route}"), format!("{route} panicked: {}", panic_msg(&p))),
             }
-            Ok(Err(_)) => {}
-            Err(p) => out.violate("C14/6", format!("C14/panic/route={R4}"), format!("{R4} panicked: {}", panic_msg(&p))),
         }
     }
     out
